@@ -123,7 +123,9 @@ def check(case, res):
       res.fail("region-not-at-safe-area", "%s origin %r extent %r" % (r["id"], o, e))
     if "Position" in r["styles"]:
       res.fail("style-remains:Position", r["id"])
-    key = (r["begin"] or 0, r["end"], r["styles"].get("WritingMode"), r["styles"].get("DisplayAlign"))
+    # regions that still differ in a style that content inherits from them (alignment, colors) are legitimately distinct
+    key = (r["begin"] or 0, r["end"], r["styles"].get("WritingMode"), r["styles"].get("DisplayAlign"),
+           repr(r["styles"].get("TextAlign")), repr(r["styles"].get("Color")), repr(r["styles"].get("BackgroundColor")))
     if key in seen:
       res.fail("regions-not-merged", "%s and %s share %r" % (seen[key], r["id"], key))
     seen[key] = r["id"]
